@@ -78,12 +78,12 @@ fn plan_key(p: &mut Planner, primaries: &[&str], subs: &[&str]) -> Value {
 }
 
 fn gen_cheap(ctx: &GenCtx) -> Vec<Value> {
-    let n = ctx.n(20_000, 600_000);
+    let n = ctx.n(20_000, 200_000);
     (0..n).map(|i| plan_key(&mut Planner::new(ctx.seed, "c07.cheap", i as u64), &CHEAP_PRIMARY, &CHEAP_SUB)).collect()
 }
 
 fn gen_expensive(ctx: &GenCtx) -> Vec<Value> {
-    let n = ctx.n(64, 3000);
+    let n = ctx.n(64, 1000);
     (0..n)
         .map(|i| {
             let mut p = Planner::new(ctx.seed, "c07.expensive", i as u64);
